@@ -260,6 +260,8 @@ def gen_graph(rs, n, kind=None):
         kind = rs.choice(["tree", "cyclic", "chain", "star"], p=[0.4, 0.3, 0.2, 0.1])
     if kind == "elastic":
         return kind, [(int(a), int(b)) for a, b in elastic_bonds(rs, n)]
+    if kind == "ring":
+        return kind, sorted(chain_bonds(n) + [(0, n - 1)])
     if kind == "tree":
         b = molgen.random_tree(rs, n)
     elif kind == "cyclic":
@@ -336,6 +338,9 @@ def gen_reference(rs, geom, n=None):
         n = int(rs.randint(3, 11)) if rs.randint(20) else int(rs.randint(20, 41))
         if geom in ("generic", "neartie", "elastic") and (geom == "elastic" or rs.randint(8) == 0):
             n, kind = int(rs.randint(20, 41)), "elastic"
+        elif geom == "generic" and rs.randint(10) == 0:
+            # ring with chain labels: atom 0 is bonded to {1, n-1}, two indices that collide in an 8-slot hash table
+            n, kind = int(rs.choice([10, 18, 26])), "ring"
         elif geom == "neartie" and n < 5:
             n = 5
     gk, bonds = gen_graph(rs, n, kind)
@@ -403,7 +408,11 @@ def gen_target(rs, ref, geom):
         q = ref[rs.randint(len(ref), size=m)]
         return q + rs.randint(-4, 5, size=(m, 3)) * (0.1 if geom == "collinear_decimal" else 0.0625)
     q = ref[rs.randint(len(ref), size=m)]
-    return q + rs.normal(size=(m, 3)) * 0.15
+    out = q + rs.normal(size=(m, 3)) * 0.15
+    if rs.randint(3) == 0:
+        # one target atom exactly ON a reference atom (distance exactly 0.0 to it)
+        out[rs.randint(m)] = ref[rs.randint(len(ref))]
+    return out
 
 
 def neartie_targets(rs, ref, anchors, m):
